@@ -81,7 +81,16 @@ Definition parse_hdr (raw : bytes) : option (Z * Z) :=
 (* PatchRecordBatchBaseOffset: the first 8 bytes become the assigned base offset *)
 Definition patch (base : Z) (raw : bytes) : bytes := be64 base ++ skipn 8 raw.
 
-(* the bytes held in the buffer and written to the segment body *)
+(* the bytes held in the buffer and written to the segment body.
+   What the code stores for ANY accepted record set -- also one whose first frame's
+   batchLength field (offset 8) does not match its length (0 as in the repository's test
+   fixtures, shorter = further frames/garbage follow, longer = "overrun") -- is the bytes
+   exactly as given, with only bytes 0..7 replaced by the assigned base offset.
+   NewRecordBatchFromBytes copies the slice, PatchRecordBatchBaseOffset writes 8 bytes,
+   BuildSegment concatenates the batches' Bytes; batchLength is never read on the write
+   path. Hence an overrun cannot touch a neighbouring record set's bytes in S3
+   (C02_stored_bytes_are_appended_bytes); what a reader that trusts batchLength then sees is
+   the reader-side consequence recorded with the open finding concatenated-batches. *)
 Definition b_bytes (b : batch) : bytes := patch (b_base b) (b_raw b).
 
 Definition b_last (b : batch) : Z := b_base b + b_lod b.
@@ -415,6 +424,25 @@ Fixpoint nondecb (l : list Z) : bool :=
   match l with
   | [] => true
   | x :: r => match r with [] => true | y :: _ => y <=? x end && nondecb r
+  end.
+
+(* the batch an accepted EAppend creates, and all record sets accepted along a run *)
+Definition new_batch (s : state) (e : event) : list batch :=
+  match e with
+  | EAppend t raw => match parse_hdr raw with
+                     | Some (lod, cnt) => [mkBatch (s_next s) lod cnt raw]
+                     | None => []
+                     end
+  | _ => []
+  end.
+
+Fixpoint appended (s : state) (evs : list event) : list batch :=
+  match evs with
+  | [] => []
+  | e :: r => match step s e with
+              | Some s' => new_batch s e ++ appended s' r
+              | None => []
+              end
   end.
 
 (* history variable for the C05 characterisation: [ov t] is true when, since thread t's
